@@ -590,6 +590,251 @@ def f5_rebias(ctx, repo):
         ctx.ob("F5-rebias", g.where, f"{opname}: {norm(st.value) if st is not None else None}", ok, "" if ok else f"expected {want}")
 
 
+
+def f5_triplets(ctx, repo):
+    """WOFF2 glyf triplet encoding: each writer branch emits a flag inside exactly the reader arm that
+    consumes the same number of bytes.  The (absX, absY) plane is cut at every constant the writer's
+    guards compare against, so every guard is decided on every cell."""
+    ctx.rule("F5-triplet", "WOFF2 triplets: for every cell of the (|dx|,|dy|) plane the flag the writer emits falls in one reader class (flag < 10/20/84/120/124/128), the writer appends as many bytes as that class consumes, and the reader's classes are the spec's", floor=6)
+    mod = repo.mod("ttLib/woff2.py")
+    w = mod.func("WOFF2GlyfTable._encodeTriplets")
+    r = mod.func("WOFF2GlyfTable._decodeTriplets")
+    cenv = module_env(repo, mod)
+    # reader: byte-count classes and decode classes
+    def chain(fn, var):
+        out = []
+        for st in ast.walk(fn.node):
+            if isinstance(st, ast.If) and isinstance(st.test, ast.Compare) and norm(st.test.left) == var and isinstance(st.test.ops[0], ast.Lt) and not (isinstance(getattr(st, "_parent", None), ast.If) and st in getattr(st._parent, "orelse", [])):
+                arms = []
+                node = st
+                while True:
+                    k = try_fold(node.test.comparators[0], cenv)
+                    arms.append((k, node.body))
+                    if len(node.orelse) == 1 and isinstance(node.orelse[0], ast.If) and isinstance(node.orelse[0].test, ast.Compare) and norm(node.orelse[0].test.left) == var:
+                        node = node.orelse[0]
+                    else:
+                        arms.append((None, node.orelse))
+                        break
+                out.append(arms)
+        return out
+    chains = chain(r, "flag")
+    nb = next((c for c in chains if any(isinstance(s, ast.Assign) and norm(s.targets[0]) == "nBytes" for k, b in c for s in b)), None)
+    dec = next((c for c in chains if c is not nb), None)
+    if nb is None or dec is None:
+        raise AnalysisError("_decodeTriplets: flag class chains not found")
+    nbytes = [(k, try_fold(next(s.value for s in b if isinstance(s, ast.Assign)), cenv)) for k, b in nb]
+    ok = nbytes == [(84, 1), (120, 2), (124, 3), (None, 4)]
+    ctx.ob("F5-triplet", r.where, f"reader byte-count classes {nbytes}", ok, "" if ok else "WOFF2 spec: flags 0-83 one byte, 84-119 two, 120-123 three, 124-127 four")
+    dks = [k for k, b in dec]
+    ok = dks == [10, 20, 84, 120, 124, None]
+    ctx.ob("F5-triplet", r.where, f"reader decode classes {dks}", ok)
+    bounds = [0] + [k for k in dks if k is not None] + [128]
+
+    def nbytes_of(flag_iv):
+        lo = 0
+        for k, n in nbytes:
+            hi = 127 if k is None else k - 1
+            if flag_iv.lo >= lo and flag_iv.hi <= hi:
+                return n
+            lo = hi + 1
+        return None
+
+    # writer branches
+    loop = next((n for n in walk_no_nested(w.node) if isinstance(n, ast.For)), None)
+    top = next((n for n in loop.body if isinstance(n, ast.If)), None) if loop else None
+    if top is None:
+        raise AnalysisError("_encodeTriplets: branch chain not found")
+    branches = []
+    node = top
+    while True:
+        branches.append((node.test, node.body))
+        if len(node.orelse) == 1 and isinstance(node.orelse[0], ast.If):
+            node = node.orelse[0]
+        else:
+            branches.append((None, node.orelse))
+            break
+    cuts = {0, 1, 65536}
+    for t, b in branches:
+        if t is None:
+            continue
+        for c in ast.walk(t):
+            if isinstance(c, ast.Compare) and len(c.ops) == 1:
+                k = try_fold(c.comparators[0], cenv)
+                if isinstance(k, int) and norm(c.left) in ("absX", "absY"):
+                    cuts.add(k + 1 if isinstance(c.ops[0], (ast.LtE, ast.Gt)) else k)
+    cuts = sorted(c for c in cuts if 0 <= c <= 65536)
+    cells = [(cuts[i], cuts[i + 1] - 1) for i in range(len(cuts) - 1)]
+    bad = []
+    seen_arms = {}
+    for cx in cells:
+        for cy in cells:
+            env = {"absX": Iv(*cx), "absY": Iv(*cy), "x": Iv(0) if cx == (0, 0) else Iv(1, 65535), "y": Iv(0) if cy == (0, 0) else Iv(1, 65535), "onCurveBit": Iv(0), "xSignBit": Iv(0, 1), "ySignBit": Iv(0, 1), "xySignBits": Iv(0, 3)}
+            ev = Evaluator(env, cenv)
+            chosen = None
+            for bi, (t, b) in enumerate(branches):
+                try:
+                    tv = True if t is None else ev.truth(t)
+                except Top:
+                    tv = None
+                if tv is None:
+                    bad.append(f"guard `{norm(t)}` undecided on cell |dx|={cx} |dy|={cy}")
+                    chosen = -1
+                    break
+                if tv:
+                    chosen = bi
+                    break
+            if chosen is None or chosen < 0:
+                continue
+            body = branches[chosen][1]
+            fl = [c for st in body for c in calls_in(st) if norm(c.func) == "flags.append"]
+            tr = [c for st in body for c in calls_in(st) if norm(c.func) == "triplets.append"]
+            if len(fl) != 1:
+                bad.append(f"branch {chosen}: {len(fl)} flag appends")
+                continue
+            try:
+                fiv = ev.ev(fl[0].args[0])
+            except Top as ex:
+                bad.append(f"branch {chosen}: flag expression not evaluable ({ex})")
+                continue
+            arm = next((i for i in range(len(bounds) - 1) if fiv.lo >= bounds[i] and fiv.hi <= bounds[i + 1] - 1), None)
+            if arm is None:
+                bad.append(f"|dx| in {cx}, |dy| in {cy}: writer branch {chosen + 1} emits flag in [{fiv.lo},{fiv.hi}], which is not inside one reader class {bounds}")
+                continue
+            n = nbytes_of(fiv)
+            if n != len(tr):
+                bad.append(f"|dx| in {cx}, |dy| in {cy}: writer appends {len(tr)} bytes, reader consumes {n} for flags [{fiv.lo},{fiv.hi}]")
+            seen_arms.setdefault(chosen, set()).add(arm)
+    for bi, arms in sorted(seen_arms.items()):
+        ok = arms == {bi}
+        ctx.ob("F5-triplet", w.where, f"writer branch {bi + 1} -> reader class {sorted(a + 1 for a in arms)}", ok, "" if ok else "a writer branch feeds a different reader class than its position in the chain")
+    ctx.ob("F5-triplet", w.where, f"{len(cells) ** 2} cells of the (|dx|,|dy|) plane, cuts at {cuts}", not bad, "; ".join(bad[:2]))
+
+
+
+def f5_device(ctx, repo):
+    ctx.rule("F5-device", "Device tables: buildDevice picks DeltaFormat f only when every delta fits the signed field of 2**f bits that DeltaValue.write masks to (f=1: [-2,1], f=2: [-8,7], f=3: [-128,127]); reader and writer derive nBits/mask/sign the same way", floor=5)
+    bm = repo.mod("otlLib/builder.py")
+    f = bm.func("buildDevice")
+    cenv = module_env(repo, bm)
+
+    def bounds(test):
+        lo = hi = None
+        for c in ast.walk(test):
+            if isinstance(c, ast.Compare) and len(c.ops) == 1:
+                k = try_fold(c.comparators[0], cenv)
+                l = norm(c.left)
+                if not isinstance(k, int):
+                    continue
+                op = c.ops[0]
+                if l == "minDelta":
+                    lo = k + 1 if isinstance(op, ast.Gt) else k if isinstance(op, ast.GtE) else lo
+                elif l == "maxDelta":
+                    hi = k - 1 if isinstance(op, ast.Lt) else k if isinstance(op, ast.LtE) else hi
+        return lo, hi
+
+    outer = next((bounds(st.test) for st in walk_no_nested(f.node) if isinstance(st, ast.Assert) and "minDelta" in norm(st.test)), (None, None))
+    node = next((st for st in walk_no_nested(f.node) if isinstance(st, ast.If) and "minDelta" in norm(st.test)), None)
+    arms = []
+    while node is not None:
+        fmtv = [try_fold(s.value, cenv) for s in node.body if isinstance(s, ast.Assign) and norm(s.targets[0]).endswith("DeltaFormat")]
+        arms.append((bounds(node.test), fmtv[0] if fmtv else None))
+        if len(node.orelse) == 1 and isinstance(node.orelse[0], ast.If):
+            node = node.orelse[0]
+        else:
+            fmtv = [try_fold(s.value, cenv) for s in node.orelse if isinstance(s, ast.Assign) and norm(s.targets[0]).endswith("DeltaFormat")]
+            arms.append((outer, fmtv[0] if fmtv else None))
+            node = None
+    if len(arms) < 3:
+        raise AnalysisError("buildDevice: DeltaFormat chain not found")
+    for (lo, hi), fmtv in arms:
+        ok = False
+        if isinstance(fmtv, int) and lo is not None and hi is not None:
+            nbits = 1 << fmtv
+            ok = -(1 << (nbits - 1)) <= lo and hi <= (1 << (nbits - 1)) - 1
+        ctx.ob("F5-device", f.where, f"DeltaFormat {fmtv} chosen for deltas in [{lo},{hi}]", ok, "" if ok else f"a {1 << fmtv if isinstance(fmtv, int) else '?'}-bit signed field holds [{-(1 << ((1 << fmtv) - 1)) if isinstance(fmtv, int) else '?'},{(1 << ((1 << fmtv) - 1)) - 1 if isinstance(fmtv, int) else '?'}]; the writer masks silently")
+    cm = repo.mod("ttLib/tables/otConverters.py")
+    rd, wr = cm.func("DeltaValue.read"), cm.func("DeltaValue.write")
+
+    def defs(fn):
+        return {norm(st.targets[0]): norm(st.value) for st in walk_no_nested(fn.node) if isinstance(st, ast.Assign) and isinstance(st.targets[0], ast.Name) and norm(st.targets[0]) in ("nBits", "mask", "signMask", "minusOffset")}
+
+    dr, dw = defs(rd), defs(wr)
+    ok = dr.get("nBits") == dw.get("nBits") == "1 << DeltaFormat" and dr.get("mask") == dw.get("mask") == "(1 << nBits) - 1"
+    ctx.ob("F5-device", cm.rel + ":DeltaValue", f"read {dr} / write {dw}", ok, "" if ok else "reader and writer disagree on field width or mask")
+    ok = dr.get("signMask") == "1 << nBits - 1" and dr.get("minusOffset") == "1 << nBits"
+    ctx.ob("F5-device", rd.where, f"sign extension: signMask = {dr.get('signMask')}, minusOffset = {dr.get('minusOffset')}", ok)
+
+
+
+def f5_halved_offsets(ctx, repo):
+    """loca / gvar short offset format: stored value = offset / 2 in a uint16"""
+    ctx.rule("F5-half", "short offset arrays (loca, gvar) are chosen only when every offset divided by the writer's divisor fits 16 bits, the reader multiplies by the same factor, the array typecodes agree per format, and loca additionally requires every offset to be even (the division would floor silently)", floor=6)
+    for rel, wq, rq in (("ttLib/tables/_l_o_c_a.py", "table__l_o_c_a.compile", "table__l_o_c_a.decompile"), ("ttLib/tables/_g_v_a_r.py", "table__g_v_a_r.compileOffsets_", "table__g_v_a_r.decompileOffsets_")):
+        mod = repo.mod(rel)
+        w, r = mod.func(wq), mod.func(rq)
+        cenv = module_env(repo, mod)
+        top = next((st for st in walk_no_nested(w.node) if isinstance(st, ast.If) and any(isinstance(c, ast.Call) and call_name(c) == "array.array" for b in st.body for c in ast.walk(b))), None)
+        if top is None:
+            raise AnalysisError(f"{rel}:{wq}: short/long branch not found")
+        # upper bound admitted on the short arm
+        lim = None
+        for c in ast.walk(top.test):
+            if isinstance(c, ast.Compare) and len(c.ops) == 1 and isinstance(c.ops[0], (ast.Lt, ast.LtE)):
+                k = try_fold(c.comparators[0], cenv)
+                if isinstance(k, int) and k > 255:
+                    lim = k - 1 if isinstance(c.ops[0], ast.Lt) else k
+        # divisor used on the short arm
+        div = None
+        for b in top.body:
+            for n in ast.walk(b):
+                if isinstance(n, ast.BinOp) and isinstance(n.op, ast.FloorDiv) and isinstance(n.right, ast.Constant):
+                    div = n.right.value
+                elif isinstance(n, ast.BinOp) and isinstance(n.op, ast.RShift) and isinstance(n.right, ast.Constant):
+                    div = 1 << n.right.value
+        codes_w = [try_fold(c.args[0], cenv) for arm in (top.body, top.orelse) for b in arm for c in ast.walk(b) if isinstance(c, ast.Call) and call_name(c) == "array.array" and c.args]
+        ok = lim is not None and div is not None and lim // div <= 0xFFFF and codes_w[:2] == ["H", "I"]
+        ctx.ob("F5-half", w.where, f"short arm admits offsets <= {lim}, stores offset/{div} in array {codes_w[:1]}, long arm {codes_w[1:2]}", ok, "" if ok else f"offset {lim} / {div} does not fit a uint16 (or typecodes changed)")
+        # reader factor
+        mul = None
+        for n in ast.walk(r.node):
+            if isinstance(n, ast.BinOp) and isinstance(n.op, ast.Mult):
+                for a, b in ((n.left, n.right), (n.right, n.left)):
+                    if isinstance(a, ast.Constant) and isinstance(a.value, int) and isinstance(b, ast.Name):
+                        mul = a.value
+        ok = mul is not None and mul == div
+        ctx.ob("F5-half", r.where, f"reader multiplies short offsets by {mul}", ok, "" if ok else f"writer divides by {div}")
+        if rel.endswith("_l_o_c_a.py"):
+            ev = [n for n in ast.walk(top.test) if isinstance(n, ast.Call) and call_name(n) == "all" and n.args and isinstance(n.args[0], (ast.GeneratorExp, ast.ListComp))]
+            ok = False
+            if ev:
+                g = ev[0].args[0]
+                it = norm(g.generators[0].iter)
+                elt = norm(g.elt)
+                ok = it == "self.locations" and "% 2" in elt and "== 0" in elt
+            ctx.ob("F5-half", w.where, "short loca only when all(l % 2 == 0 for l in self.locations)", ok, "" if ok else "an odd intermediate offset is floored: loca no longer points at the glyph")
+            fm = [norm(st) for st in walk_no_nested(w.node) if isinstance(st, ast.Assign) and "indexToLocFormat" in norm(st.targets[0])]
+            short = [norm(st) for b in top.body for st in ast.walk(b) if isinstance(st, ast.Assign) and "indexToLocFormat" in norm(st.targets[0])]
+            long_ = [norm(st) for b in top.orelse for st in ast.walk(b) if isinstance(st, ast.Assign) and "indexToLocFormat" in norm(st.targets[0])]
+            ok = len(short) == 1 and short[0].endswith("= 0") and len(long_) == 1 and long_[0].endswith("= 1")
+            ctx.ob("F5-half", w.where, f"head.indexToLocFormat: short arm {short}, long arm {long_}", ok)
+    tv = repo.mod("ttLib/tables/TupleVariation.py")
+    f = tv.func("compileSharedTuples")
+    cenv = module_env(repo, tv)
+    dflt = None
+    args = f.node.args
+    for a, d in zip(args.args[len(args.args) - len(args.defaults):], args.defaults):
+        if a.arg == "MAX_NUM_SHARED_COORDS":
+            dflt = try_fold(d, cenv)
+    mask = try_fold(tv.const("TUPLE_INDEX_MASK"), cenv)
+    mc = [c for c in calls_in(f.node) if last_attr(c) == "most_common"]
+    cap = None
+    if mc and mc[0].args:
+        a = mc[0].args[0]
+        cap = dflt if norm(a) == "MAX_NUM_SHARED_COORDS" else try_fold(a, cenv.child({"MAX_NUM_SHARED_COORDS": dflt})) if dflt is not None else None
+    ok = isinstance(cap, int) and isinstance(mask, int) and cap <= mask + 1
+    ctx.ob("F5-half", f.where, f"at most {cap} shared tuples; index field mask {mask:#x}" if isinstance(mask, int) else "shared tuple cap", ok, "" if ok else "a shared tuple index beyond the mask sets reserved flag bits and decodes as another tuple")
+
+
 # ---------------------------------------------------------------------------
 # F6 literal tables
 # ---------------------------------------------------------------------------
@@ -866,4 +1111,4 @@ def ttprogram_push(ctx, repo):
     ctx.ob("F5-ttpush", a.where, f"PUSH[ ] optimiser classifies bytes with {tests}", ok)
 
 
-ALL = [ttprogram_push, f5_ps_operands, f5_uint32var, f5_255ushort, f5_base128, f5_points, f5_deltas, f5_subr_bias, f6_tables, f22_fixed_tools, f22_eexec, f22_time, f22_sstruct, tag_ident]
+ALL = [ttprogram_push, f5_ps_operands, f5_uint32var, f5_255ushort, f5_base128, f5_points, f5_deltas, f5_subr_bias, f6_tables, f22_fixed_tools, f22_eexec, f22_time, f22_sstruct, tag_ident, f5_triplets, f5_offsize, f5_rebias, f5_device, f5_halved_offsets]
